@@ -167,6 +167,32 @@ def run(ctx):
                 pass
         if len(fails) > 20:
             break
+    # the same kernels called from several threads at once (the guide-tree distances are computed in a parallel loop): the value for a pair is the
+    # value the pair gets when it is computed alone
+    small = [(t, p) for t, p in ps if 1 <= len(p) <= len(t) <= 700]
+    for variant in ("asan", "noavx"):
+        exe = kvh if variant == "asan" else C.build_harness("noavx")
+        for r_ in range(2 if ctx.quick else 10):
+            grp = ctx.rng.sample(small, min(len(small), 24))
+            if len(grp) < 4:
+                break
+            nt = ctx.rng.choice([4, 8, 16])
+            ln = "bpm_mt %d %d %s" % (nt, 150 if ctx.quick else 600, " ".join("%s %s" % (csv(t), csv(p)) for t, p in grp))
+            rc_, o_, e_ = C.run_lines(exe, [ln], env=C.SAN_ENV, timeout=1800)
+            res_ = o_[0] if o_ else "<crash> " + e_[-400:]
+            ctx.evaluations += 1
+            if res_.startswith("ok"):
+                ctx.count("concurrent_calls_%s" % variant, int(res_.split("calls=")[1]))
+                continue
+            if res_.startswith("mismatch"):
+                kv_ = dict(x.split("=") for x in res_.split()[1:])
+                t_, p_ = grp[int(kv_["pair"])]
+                fails.append(("%s returns %s for a pair when %d threads call the kernels at the same time, %s when the pair is computed alone (|text|=%d, |pattern|=%d, %s build)" %
+                              (kv_["kernel"], kv_["concurrent"], nt, kv_["alone"], len(t_), len(p_), variant),
+                              dict(text=csv(t_), pattern=csv(p_), routine=kv_["kernel"] + " (concurrent)", variant=variant, threads=nt, op=ln[:20000])))
+            else:
+                fails.append(("concurrent kernel calls crashed or faulted: %s" % res_[:200], dict(text="", pattern="", routine="bpm_mt", variant=variant, op=ln[:20000])))
+            break
     for t, p in ps[:2]:
         ctx.sample(dict(text=csv(t)[:80], pattern=csv(p)[:80]))
     seen = set()
